@@ -50,10 +50,20 @@ type Spec struct {
 	Types    []TypeSpec `json:"types"`
 	Query    string     `json:"query"`
 	Mutation string     `json:"mutation,omitempty"`
+	// Orphans are connection fields whose host type was erased while the field itself (hence its
+	// <Prefix>Connection / <Prefix>Edge types, which carry the field's features) stays visible: the
+	// types are still built and registered, the field hangs nowhere. Only eraseSpec produces them.
+	Orphans []FieldSpec `json:"orphans,omitempty"`
 }
 
 func (s *Spec) clone() *Spec {
 	out := &Spec{Query: s.Query, Mutation: s.Mutation}
+	for _, f := range s.Orphans {
+		nf := f
+		c := *f.Conn
+		nf.Conn = &c
+		out.Orphans = append(out.Orphans, nf)
+	}
 	for _, t := range s.Types {
 		nt := t
 		nt.Req = append([]string(nil), t.Req...)
@@ -146,6 +156,22 @@ func fset(fs []string) map[string]bool {
 func expand(s *Spec) *Spec {
 	out := s.clone()
 	var extra []TypeSpec
+	connTypes := func(c *ConnSpec, req []string) {
+		extra = append(extra,
+			TypeSpec{Kind: "object", Name: c.Prefix + "Connection", Req: append([]string(nil), req...), Fields: []FieldSpec{
+				{Name: "edges", Type: "[" + c.Prefix + "Edge!]!"},
+				{Name: "pageInfo", Type: "PageInfo!"},
+				{Name: "totalCount", Type: "Int!"},
+			}},
+			TypeSpec{Kind: "object", Name: c.Prefix + "Edge", Req: append([]string(nil), req...), Fields: []FieldSpec{
+				{Name: "cursor", Type: "String!"},
+				{Name: "node", Type: c.Node},
+			}})
+	}
+	for _, f := range out.Orphans {
+		connTypes(f.Conn, f.Req)
+	}
+	out.Orphans = nil
 	for ti := range out.Types {
 		t := &out.Types[ti]
 		for fi := range t.Fields {
@@ -157,16 +183,7 @@ func expand(s *Spec) *Spec {
 			f.Conn = nil
 			f.Type = c.Prefix + "Connection"
 			f.Args = []ArgSpec{{"after", "String"}, {"before", "String"}, {"first", "Int"}, {"last", "Int"}}
-			extra = append(extra,
-				TypeSpec{Kind: "object", Name: c.Prefix + "Connection", Req: append([]string(nil), f.Req...), Fields: []FieldSpec{
-					{Name: "edges", Type: "[" + c.Prefix + "Edge!]!"},
-					{Name: "pageInfo", Type: "PageInfo!"},
-					{Name: "totalCount", Type: "Int!"},
-				}},
-				TypeSpec{Kind: "object", Name: c.Prefix + "Edge", Req: append([]string(nil), f.Req...), Fields: []FieldSpec{
-					{Name: "cursor", Type: "String!"},
-					{Name: "node", Type: c.Node},
-				}})
+			connTypes(c, f.Req)
 		}
 	}
 	out.Types = append(out.Types, extra...)
@@ -197,8 +214,18 @@ func eraseSpec(s *Spec, F map[string]bool) *Spec {
 	if out.Mutation != "" && !alive[out.Mutation] {
 		out.Mutation = ""
 	}
+	for _, f := range s.Orphans {
+		if subset(f.Req, F) {
+			out.Orphans = append(out.Orphans, f)
+		}
+	}
 	for _, t := range s.Types {
 		if !alive[t.Name] {
+			for _, f := range t.Fields {
+				if f.Conn != nil && subset(f.Req, F) {
+					out.Orphans = append(out.Orphans, f) // its connection types are visible and stay
+				}
+			}
 			continue
 		}
 		nt := TypeSpec{Kind: t.Kind, Name: t.Name, Req: append([]string(nil), t.Req...), Builtin: t.Builtin,
@@ -298,4 +325,30 @@ func canonSpec(s *Spec) string {
 	}
 	sort.Strings(ts)
 	return fmt.Sprintf("query=%s mutation=%s\n%s", s.Query, s.Mutation, strings.Join(ts, "\n"))
+}
+
+// wellFormed: the conventions every generated spec obeys and the shrinker must keep — all five
+// built-in scalars are registered, and PageInfo is registered whenever a connection field exists
+// (otherwise a type would come and go with a field for reasons unrelated to features).
+func wellFormed(s *Spec) bool {
+	for _, n := range builtinScalarNames {
+		if t := s.find(n); t == nil || t.Builtin != n {
+			return false
+		}
+	}
+	for _, t := range s.Types {
+		for _, f := range t.Fields {
+			if f.Conn != nil {
+				if p := s.find("PageInfo"); p == nil || p.Builtin != "PageInfo" {
+					return false
+				}
+			}
+		}
+	}
+	if len(s.Orphans) > 0 {
+		if p := s.find("PageInfo"); p == nil || p.Builtin != "PageInfo" {
+			return false
+		}
+	}
+	return true
 }
